@@ -302,6 +302,31 @@ func execOp(re *regexp2.Regexp, op *Op, ctx *opCtx) (out string) {
 			return errClass(innerErr)
 		}
 		return orErr(fmt.Sprintf("%q", r), err)
+	case OpReplaceFuncPanic:
+		// the caller's evaluator panics and the caller recovers: a call that failed in a way the library
+		// cannot clean up after; whatever it held (interpreter state, buffers) must not poison later calls
+		return func() (res string) {
+			seen := 0
+			defer func() {
+				if x := recover(); x != nil {
+					if vsim.IsAbort(x) {
+						panic(x)
+					}
+					if s, ok := x.(string); ok && s == "verif: evaluator gives up" {
+						res = fmt.Sprintf("EVALPANIC after %d", seen)
+						return
+					}
+					panic(x)
+				}
+			}()
+			r, err := re.ReplaceFunc(in, func(m regexp2.Match) string {
+				if seen++; seen > op.StartAt {
+					panic("verif: evaluator gives up")
+				}
+				return "<" + m.String() + ">"
+			}, -1, -1)
+			return orErr(fmt.Sprintf("%q", r), err)
+		}()
 	case OpSplit:
 		r, err := re.Split(in, op.N)
 		return orErr(fmt.Sprintf("%q", r), err)
